@@ -880,6 +880,26 @@ func (m *models) advance(d value) {
 	m.gcTimers()
 }
 
+// advanceLazy moves the clock and fires the due timers but does not let the woken threads run:
+// they stay runnable until the next drain or blocking point (a timer goroutine that is
+// scheduled late).
+func (m *models) advanceLazy(d value) {
+	target := m.addNs(m.now, d)
+	for {
+		t := m.earliest()
+		if t == nil || !m.leq(t.deadline, target) {
+			break
+		}
+		m.timerInstant(t)
+		t.active = false
+		t.fire()
+	}
+	if m.leq(m.now, target) {
+		m.now = target
+	}
+	m.gcTimers()
+}
+
 func (m *models) gcTimers() {
 	live := m.timers[:0]
 	for _, t := range m.timers {
